@@ -10,5 +10,6 @@ func TestVerifReplay(t *testing.T) {
 	vrt.RunReplay(t, map[string]func(){
 		"VerifC10Quick":    VerifC10Quick,
 		"VerifC10Thorough": VerifC10Thorough,
+		"VerifC10Three":    VerifC10Three,
 	})
 }
